@@ -416,7 +416,13 @@ def rand_gaussian_prep_op(rng, nprng, n, hbar=2.0):
     """Gaussian(V, r, decomp=False) on 1-3 modes in arbitrary order; V from a random program's state (physical)"""
     k = rng.randint(1, min(3, n))
     regs = rng.sample(range(n), k)
-    sub = rand_gaussian_program(rng, n=k, length=rng.randint(1, 5))
+    if n >= 3 and rng.random() < 0.5:     # three targets in a cyclic order: the sorting permutation differs from its inverse
+        a_, b_, c_ = sorted(rng.sample(range(n), 3))
+        regs = rng.choice([[b_, c_, a_], [c_, a_, b_]])
+        k = 3
+    sub = rand_gaussian_program(rng, n=k, length=rng.randint(2 if k == 3 else 1, 5))
+    if k == 3:      # make the three subsystems pairwise different
+        sub["ops"] = [dict(cls="Dgate", regs=[i], pars=[0.2 + 0.15 * i, 0.3 * i]) for i in range(3)] + sub["ops"]
     ref = reference(sub, 2.0)
     V = np.round(ref.V * (hbar / 2), 9)
     V = (V + V.T) / 2
